@@ -95,6 +95,9 @@ def build_case(rng, ncat, nnum, levels, terms_idx=None, exhaustive=False):
         "cats": cats, "nums": nums, "levels": lv, "fexpr": fexpr, "terms": terms, "icpt": rng.random() < 0.6,
         "ordering": rng.choice(["none", "degree", "degree", "sort"]), "cluster": rng.choice([None, None, "numerical_factors"]),
         "seed": rng.randrange(1 << 30), "output": rng.choice(["numpy", "pandas", "sparse"]),
+        # the term set as one part of a multi-part formula (a categorical response in front, or the same part twice): what an
+        # earlier part spans is no business of a later one
+        "multi": rng.choice([None, None, None, "lhs_cat", "twice"]) if not exhaustive else None,
     }
 
 
@@ -164,14 +167,20 @@ def judge(case) -> Outcome:
     df = design(case)
     f = formula_of(case)
     tag = f"{f!r} ordering={case['ordering']} cluster={case['cluster']} levels={ {k: len(v) for k, v in case['levels'].items()} } rows={len(df)}"
+    multi = case.get("multi") if case["cats"] else None
     try:
         with quiet():
-            form = Formula(f, _ordering=case["ordering"])
+            fm = f if not multi else (f"{case['fexpr'][case['cats'][0]]} ~ {f}" if multi == "lhs_cat" else f"{f} | {f}")
+            form = Formula(fm, _ordering=case["ordering"])
             kw = {"output": case["output"], "context": {"onehot": onehot}}
             if case["cluster"]:
                 kw["cluster_by"] = case["cluster"]
             red = form.get_model_matrix(df, ensure_full_rank=True, **kw)
             full = form.get_model_matrix(df, ensure_full_rank=False, **kw)
+            if multi:  # judge the last part (the right-hand side / the second copy)
+                red, full = list(red._flatten())[-1], list(full._flatten())[-1]
+                tag = f"[part of {fm!r}] " + tag
+                out.see("multi_part_cases")
     except Exception as e:  # noqa: BLE001
         out.fail("c03.materialization_raised", f"{tag}: {type(e).__name__}: {str(e)[:200]}")
         return out
